@@ -237,7 +237,11 @@ claim("C16", "proof",
       "level fuel never runs out on generated programs; point values of an ExprOracle (an Oracle "
       "answering every method with a private Evaluator) against the extracted evaluator tower.  Oracle: the same random context "
       "over the oracle and over the plain expression: values, gradients at unambiguous points, feature sets, interval soundness, "
-      "nested specialisation bit-identical.  Meshes over oracle trees are not rendered by this check (partial on that clause).",
+      "nested specialisation bit-identical; batches over oracle trees (values, gradients, ambiguity flags, repeated on the same "
+      "stored points) against single-point queries, through a full oracle and through a minimal one that relies on the library's "
+      "default batch / gradient implementations.  Meshes: closed solids wrapped in an oracle (optionally under a remap) rendered by "
+      "the three meshers with 1 - 4 workers next to the plain solid; every audit the plain mesh passes (edge balance, repeated "
+      "vertices, indices, edge-manifoldness, winding, distance to the surface, comparable size) the oracle's mesh must pass too.",
       "Trusted: Coq kernel + classical real axioms; extraction; harness ExprOracle; user oracles meet the Oracle contract.",
       "Coq proof (deck/oracle induction, Coquelicot filterdiff) + extraction-based correspondence",
       "DESIGN.md section 6, C16")
